@@ -23,6 +23,7 @@ type Contract struct {
 	Trusted  bool
 	NoInline bool
 	LogCalls bool // calls applied by contract are recorded in the ghost call log
+	LogName  string // name of a separate call log ("" = the default one)
 }
 
 type Clause struct {
@@ -177,7 +178,9 @@ func ParseSpecFile(path string) (*SpecFile, error) {
 				case "noinline":
 					c.NoInline = true
 				case "logcalls":
+					// "logcalls" records in the default call log, "logcalls NAME" in a separate one
 					c.LogCalls = true
+					c.LogName = strings.TrimSpace(rest)
 				case "let", "oldlet":
 					// let: bound in the current (post/loop) state; oldlet: bound in the pre-state
 					c.Clauses = append(c.Clauses, Clause{Kind: kw[0], Expr: rest, Line: lineNos[i]})
@@ -395,9 +398,13 @@ func __elemsUnchangedExcept2[T any](a, b []T) bool { return true }
 func __spawnN() int { return 0 }
 func __decoded[T any](buf []byte) T { var z T; return z }
 func __decodeOK[T any](buf []byte) bool { return true }
+func __nextDecoded[T any](dec any) T { var z T; return z }
+func __nextDecodeOK[T any](dec any) bool { return true }
 func __callN() int { return 0 }
 func __callIs(i int, fn string) bool { return true }
 func __callRet(i int) bool { return true }
+func __callNOf(log string) int { return 0 }
+func __callRetOf(log string, i int) bool { return true }
 func __spawnArg(i int) uint64 { return 0 }
 func __spawnIs(i int, fn string) bool { return true }
 `
@@ -546,7 +553,7 @@ func splitTop(s string, sep byte) []string {
 
 var (
 	oldRe    = regexp.MustCompile(`\bold\(`)
-	forallRe = regexp.MustCompile(`\b(forall|forall2|forall3|exists|exists2|ite|visited|mapAt|mapHas|witness|distinctRefs|allocatedRef|sentN|sentAt|recvN|recvAt|closed|held|rheld|fresh|mapEq|sameElems|sameArray|sameSlice|allocatedElemsKept|allocated|arrayAllocated|same|nilSlice|disjoint|elemsUnchangedExcept|elemsUnchangedExcept2|spawnN|spawnArg|spawnIs|callN|callIs|callRet|decoded\[[A-Za-z0-9_.*\[\]]+\]|decodeOK\[[A-Za-z0-9_.*\[\]]+\]|logN|logAt\[[A-Za-z0-9_.*\[\]]+\])\(`)
+	forallRe = regexp.MustCompile(`\b(forall|forall2|forall3|exists|exists2|ite|visited|mapAt|mapHas|witness|distinctRefs|allocatedRef|sentN|sentAt|recvN|recvAt|closed|held|rheld|fresh|mapEq|sameElems|sameArray|sameSlice|allocatedElemsKept|allocated|arrayAllocated|same|nilSlice|disjoint|elemsUnchangedExcept|elemsUnchangedExcept2|spawnN|spawnArg|spawnIs|callNOf|callRetOf|callN|callIs|callRet|decoded\[[A-Za-z0-9_.*\[\]]+\]|decodeOK\[[A-Za-z0-9_.*\[\]]+\]|nextDecoded\[[A-Za-z0-9_.*\[\]]+\]|nextDecodeOK\[[A-Za-z0-9_.*\[\]]+\]|logN|logAt\[[A-Za-z0-9_.*\[\]]+\])\(`)
 	assertRe = regexp.MustCompile(`\bassert\(`)
 )
 
